@@ -13,7 +13,7 @@ var (
 	mkC16  = func() []*sim.Mon { return []*sim.Mon{sim.MonC16()} }
 	mkC13t = func() []*sim.Mon { return []*sim.Mon{sim.MonC13()} }
 	shC08  = TimedShape{Kind: "c08"}
-	shC09  = TimedShape{Kind: "c09"}
+	shC09  = TimedShape{Kind: "c09", MaxN: 10}
 	shC16  = TimedShape{Kind: "c16"}
 	shC13t = TimedShape{Kind: "c13"}
 )
